@@ -266,7 +266,7 @@ func expectJoin(s *Scenario, withMeta bool, j Join) (exp []expTag, zeroBase bool
 type caseStats struct {
 	key, ptsNeDts, ptsBack, big, tiny, boundary, older, first32, ext24, aacHdr bool
 	views                                                                      int
-	gopJoin, midJoin, lead, leadDropped                                        bool
+	gopJoin, midJoin, lead, leadDropped, magicAU, magicNal                     bool
 }
 
 func (s *Scenario) staticStats() caseStats {
@@ -277,6 +277,9 @@ func (s *Scenario) staticStats() caseStats {
 		if !f.Audio {
 			if s.isKey(f) {
 				c.key = true
+			}
+			if f.Magic > 0 {
+				c.magicNal = true
 			}
 			if f.Pts != f.Dts {
 				c.ptsNeDts = true
@@ -290,6 +293,9 @@ func (s *Scenario) staticStats() caseStats {
 			if (s.Codec == "H264" && f.Size == 1) || (s.Codec == "H265" && f.Size == 2) {
 				c.tiny = true
 			}
+		}
+		if f.Audio && f.Magic > 0 {
+			c.magicAU = true
 		}
 		m := tagMillis(f)
 		if first {
@@ -442,7 +448,7 @@ func record(s *Scenario, cs caseStats) {
 	for name, on := range map[string]bool{
 		"has-key-frame": cs.key, "pts!=dts": cs.ptsNeDts, "pts<dts": cs.ptsBack, "nal>64KiB": cs.big, "nal-minimal-size": cs.tiny,
 		"time-boundary-crossed": cs.boundary, "older-than-origin-tag": cs.older, "first-tag-ms=2^32-1": cs.first32,
-		"join-with-cached-gop": cs.gopJoin, "audio-ahead-of-parameter-sets": cs.lead, "audio-ahead-of-parameter-sets:dropped": cs.leadDropped, "timestamp-extended-byte-written": cs.ext24, "observed:aac-tag-header-not-0xAF(not judged)": cs.aacHdr, "join-mid-stream": cs.midJoin,
+		"join-with-cached-gop": cs.gopJoin, "aac-frame-starts-like-other-framing": cs.magicAU, "nal-payload-starts-like-other-framing": cs.magicNal, "audio-ahead-of-parameter-sets": cs.lead, "audio-ahead-of-parameter-sets:dropped": cs.leadDropped, "timestamp-extended-byte-written": cs.ext24, "observed:aac-tag-header-not-0xAF(not judged)": cs.aacHdr, "join-mid-stream": cs.midJoin,
 	} {
 		if on {
 			evid.Class(name)
